@@ -113,6 +113,18 @@ int main(int argc, char** argv) {
         if (rc == status::OK) present[k] = true;
         have_read = false;
     };
+    auto do_mem = [&]() {   // mem_usage, always with a dump
+        auto mu = mem_usage(st); vh::Canon c(ti);
+        std::string o = "{\"op\":\"mem\",\"stack\":["; for (std::size_t q = 0; q < mu.size(); q++) { if (q) o += ","; o += "[" + std::to_string(std::get<0>(mu[q])) + "," + std::to_string(std::get<1>(mu[q])) + "," + std::to_string(std::get<2>(mu[q])) + "]"; }
+        o += "],\"dump\":" + vh::dump_json(c, valjson) + "}"; puts(o.c_str());
+    };
+    // preamble: ascending two-byte keys (every border keeps 8 entries, interiors fill up completely: 16 children at 128 keys)
+    for (long i = 0, n = argi("ascend", 0); i < n; i++) {
+        std::string k; k.push_back((char)(1 + i / 200)); k.push_back((char)(1 + i % 200));
+        if (std::find(keys.begin(), keys.end(), k) == keys.end()) keys.push_back(k);
+        do_put(k, false, false, 0);
+        if (i % 16 == 15 || (i >= 118 && i < 140)) do_mem();
+    }
     long psweep = argi("psweep", 0), pdrain = argi("pdrain", 0); std::vector<std::string> sweep;   // sorted runs of removes that empty whole borders
     for (long opno = 1; opno <= nops; opno++) {
         long x = rng() % 100; long acc = 0;
@@ -246,11 +258,7 @@ int main(int argc, char** argv) {
                 if (!ended) { if (!rtl) { rd_r = lastkey; rd_re = scan_endpoint::INCLUSIVE; } else { rd_l = lastkey; rd_le = scan_endpoint::INCLUSIVE; } } }
             continue;
         }
-        {   // mem_usage, always with a dump
-            auto mu = mem_usage(st); vh::Canon c(ti);
-            std::string o = "{\"op\":\"mem\",\"stack\":["; for (std::size_t q = 0; q < mu.size(); q++) { if (q) o += ","; o += "[" + std::to_string(std::get<0>(mu[q])) + "," + std::to_string(std::get<1>(mu[q])) + "," + std::to_string(std::get<2>(mu[q])) + "]"; }
-            o += "],\"dump\":" + vh::dump_json(c, valjson) + "}"; puts(o.c_str()); continue;
-        }
+        do_mem();
     }
     { vh::Canon c(ti); std::string o = "{\"op\":\"final\",\"dump\":" + vh::dump_json(c, valjson) + "}"; puts(o.c_str()); }
     leave(tok); fin();
